@@ -41,6 +41,7 @@ func (c10) Gen(r *rand.Rand, tier string, run int) *core.Case {
 	// buffers, pools - must not suffer)
 	c.Params["doomed"] = []int{0, 0, 2, 5}[r.IntN(4)]
 	c.Params["transport"] = []int{0, 0, 1, 2, 3, 4}[r.IntN(6)]
+	c.Params["concurrent_install"] = r.IntN(2)
 	if r.IntN(8) == 0 {
 		// the receiver stops reading for a few simulated seconds while the
 		// senders are blocked in the middle of their messages, then resumes:
@@ -189,22 +190,45 @@ func (c10) Run(c *core.Case, env *core.Env) {
 		st.handlers = append(st.handlers, &c10handler{kind: "parity", arg: uint32(hr.IntN(2)), small: true, queue: make(chan *net.Message, 1)})
 	}
 	install := func(e net.EndPoint) {
-		for _, h := range st.handlers {
-			h := h
+		// the handlers are registered one after the other, or all at once
+		// from as many goroutines: each must get a slot of its own
+		var iwg sync.WaitGroup
+		ids := make([]int, len(st.handlers))
+		for k, h := range st.handlers {
+			k, h := k, h
 			filter := func(hdr *net.Header) (bool, bool) {
 				return h.match(hdr.Type, hdr.Service, hdr.ID), true
 			}
-			if h.fn {
-				e.AddHandler(filter, func(m *net.Message) error {
-					h.mu.Lock()
-					h.got = append(h.got, m)
-					h.mu.Unlock()
-					return nil
-				}, nil)
-				env.Probe("handlers-with-consumer-function")
-				continue
+			register := func() {
+				if h.fn {
+					ids[k] = e.AddHandler(filter, func(m *net.Message) error {
+						h.mu.Lock()
+						h.got = append(h.got, m)
+						h.mu.Unlock()
+						return nil
+					}, nil)
+					env.Probe("handlers-with-consumer-function")
+					return
+				}
+				ids[k] = e.MakeHandler(filter, h.queue, nil)
 			}
-			e.MakeHandler(filter, h.queue, nil)
+			if c.P("concurrent_install", 0) == 1 {
+				iwg.Add(1)
+				go func() {
+					defer iwg.Done()
+					register()
+				}()
+			} else {
+				register()
+			}
+		}
+		iwg.Wait()
+		seen := map[int]int{}
+		for k, id := range ids {
+			if prev, dup := seen[id]; dup {
+				env.Violate("handler-id-given-twice", "handlers %d and %d, both registered and live, were given the same identifier %d", prev, k, id)
+			}
+			seen[id] = k
 		}
 	}
 	var ea net.EndPoint
